@@ -120,6 +120,21 @@ fn collect(prop: &PropDef, tier: &str, c: &Child, status: i32, timed_out: bool) 
                 r.class = format!("abort/signal-{sig}");
                 r.msg = format!("process died (signal/exit {sig}) during the run; progress: {progress}");
             }
+            let mut spec = spec;
+            // crash engine: pin the crash point that was being examined when the process died
+            let parts: Vec<&str> = progress.split_whitespace().collect();
+            if parts.len() == 4 && parts[0] == "crashpoint" {
+                if let (Ok(k), Ok(seed)) = (parts[1].parse::<usize>(), parts[3].parse::<u64>()) {
+                    if let Some(obj) = spec.extra.as_object_mut() {
+                        obj.insert(
+                            "explicit".into(),
+                            serde_json::json!([[k, parts[2], seed]]),
+                        );
+                        obj.insert("nested_percent".into(), serde_json::json!(0));
+                    }
+                    r.class = format!("{}/during-recovery-of-crash-image", r.class);
+                }
+            }
             r.spec = Some(spec);
             r
         }
